@@ -9,8 +9,8 @@ from sim.ctx import RunCtx, make_scheduler, gen_sched
 from sim import shrink as shr
 
 PROP = 'C03'
-QUICK_RUNS = 8000
-THOROUGH_RUNS = 150000
+QUICK_RUNS = 50000
+THOROUGH_RUNS = 1000000
 QUICK_WALL = 110
 THOROUGH_WALL = 1500
 CHUNK = 25
@@ -31,10 +31,11 @@ def preload():
 
 
 def gen_case(rng, tier, idx):
+    big = rng.choice((None, None, None, (-10.0, -20.0, -40.0, -5.0, -60.0), (-25.0, 30.0, -50.0, 10.0)))     # large magnitudes too
     if rng.random() < 0.3:
-        spec = gen_mdp_spec(rng, proper=True, discounts=(1.0,), rewards=rng.choice((None, (-2.0, -1.0, -1.0, 0.0, 1.0, 0.5))))
+        spec = gen_mdp_spec(rng, proper=True, discounts=(1.0,), rewards=big or rng.choice((None, (-2.0, -1.0, -1.0, 0.0, 1.0, 0.5))))
     else:
-        spec = gen_mdp_spec(rng, proper=rng.random() < 0.5, discounts=(0.5, 0.8, 0.9, 0.95, 0.99))
+        spec = gen_mdp_spec(rng, proper=rng.random() < 0.5, discounts=(0.5, 0.8, 0.9, 0.95, 0.99), rewards=big)
     h = gen_heuristic(rng)
     h['at_abs'] = abs(h['at_abs'])       # C03's heuristics never under-estimate, absorbing states (worth 0) included
     cfg = dict(heur=h, rao=rng.random() < 0.7, rno=rng.random() < 0.7, seed=rng.choice((0, 1, 2, 77)))
